@@ -213,7 +213,7 @@ def _expandable(v, allow_calls=()) -> bool:
     subscripts, operators, comprehensions and calls of pure functions / getters only"""
     from .canon import PURE_CALLS, PURE_METHODS, PURE_METHOD_PREFIX
     for n in ast.walk(v):
-        if isinstance(n, (ast.Yield, ast.YieldFrom, ast.Await, ast.NamedExpr, ast.Lambda, ast.Starred)):
+        if isinstance(n, (ast.Yield, ast.YieldFrom, ast.Await, ast.NamedExpr, ast.Lambda)):
             return False
         if isinstance(n, ast.Call):
             f = n.func
@@ -260,13 +260,34 @@ def _block_owner(fn_node, block):
     return cache.get(id(block))
 
 
+def _comp_bound(node) -> Set[int]:
+    """ids of Name nodes that are comprehension targets (own scope: not stores of the function)"""
+    out = set()
+    for n in ast.walk(node):
+        if isinstance(n, ast.comprehension):
+            for t in ast.walk(n.target):
+                if isinstance(t, ast.Name):
+                    out.add(id(t))
+    return out
+
+
 def _stores_in(stmts) -> Set[str]:
     out = set()
     for s in stmts:
+        cb = _comp_bound(s)
         for n in ast.walk(s):
-            if isinstance(n, ast.Name) and isinstance(n.ctx, (ast.Store, ast.Del)):
+            if isinstance(n, ast.Name) and isinstance(n.ctx, (ast.Store, ast.Del)) and id(n) not in cb:
                 out.add(n.id)
     return out
+
+
+def _free_reads(v) -> Set[str]:
+    """names read by expression v, without the variables bound by its own comprehensions"""
+    bound = set()
+    for n in ast.walk(v):
+        if isinstance(n, ast.comprehension):
+            bound |= {t.id for t in ast.walk(n.target) if isinstance(t, ast.Name)}
+    return {x.id for x in ast.walk(v) if isinstance(x, ast.Name)} - bound
 
 
 def expand_names(fn_node, stmt, expr, depth=3, chains=None, allow_calls=()):
@@ -287,7 +308,7 @@ def expand_names(fn_node, stmt, expr, depth=3, chains=None, allow_calls=()):
                 v = d.value
                 if isinstance(v, (ast.Subscript, ast.Attribute, ast.Name, ast.Call, ast.BinOp, ast.Compare, ast.BoolOp, ast.IfExp, ast.Constant, ast.UnaryOp, ast.JoinedStr)) \
                         and _expandable(v, allow_calls):
-                    reads = {x.id for x in ast.walk(v) if isinstance(x, ast.Name)}
+                    reads = _free_reads(v)
                     if reads & (_stores_in(between) - {n.id}) or (n.id in reads and n.id in _stores_in(between)):
                         return n
                     return expand_names(fn_node, d, _copy.deepcopy(v), depth - 1, chains, allow_calls)
@@ -443,3 +464,134 @@ def must_set_flow(fn_node, transfer: Callable[[ast.AST, frozenset], frozenset], 
                 state[y] = new
                 work.append(y)
     return cfg, state
+
+
+def facts_at_tests(fn_node, test_pred: Callable[[ast.AST], bool], assume: Dict[str, bool] = None):
+    """[(test expression, owning If/While statement, Facts)] : must-facts on entry to every branch condition satisfying test_pred"""
+    cfg = CFG(fn_node)
+    init = Facts()
+    for k, v in (assume or {}).items():
+        init = init.assume(ast.parse(k, mode='eval').body, v) or init
+    st = cfg.must_facts(init=init)
+    owner = {}
+    for n in ast.walk(fn_node):
+        if isinstance(n, (ast.If, ast.While)):
+            owner[id(n.test)] = n
+    out = []
+    for n in cfg.nodes:
+        if n.kind == 'test' and test_pred(n.ast):
+            out.append((n.ast, owner.get(id(n.ast)), st.get(n.id)))
+    return out
+
+
+# ------------------------------------------------------------------ decisions as boolean functions (finite truth tables, no solver)
+def comp_alpha(e):
+    """copy of e with comprehension variables renamed canonically by nesting depth (_c0, _c0b, _c1, ...) so that
+    `x in s for x in t` and `tx in s for tx in t` agree"""
+    import copy as _copy
+    e = _copy.deepcopy(e)
+
+    def rec(n, depth):
+        if isinstance(n, (ast.ListComp, ast.SetComp, ast.GeneratorExp, ast.DictComp)):
+            ren = {}
+            k = 0
+            for g in n.generators:
+                for t in ast.walk(g.target):
+                    if isinstance(t, ast.Name):
+                        ren[t.id] = f"_c{depth}" + (chr(ord('a') + k) if k else '')
+                        k += 1
+            for x in ast.walk(n):
+                if isinstance(x, ast.Name) and x.id in ren:
+                    x.id = ren[x.id]
+            depth += 1
+        for c in ast.iter_child_nodes(n):
+            rec(c, depth)
+    rec(e, 0)
+    return e
+
+
+def decision_value(fn_node, stmts, var: str, chains=None, allow_calls=(), prior=None):
+    """The value `var` has after executing `stmts`, as ONE expression: if/elif/else chains become nested conditional
+    expressions, every assigned value and every test is expanded to its definition (expand_names).  None when var may be left
+    unassigned or a statement kind that could rebind it is not understood."""
+    chains = chains or block_chains(fn_node)
+    val = prior
+    for st in stmts:
+        if isinstance(st, ast.Assign) and len(st.targets) == 1 and isinstance(st.targets[0], ast.Name) and st.targets[0].id == var:
+            val = expand_names(fn_node, st, st.value, depth=4, chains=chains, allow_calls=allow_calls)
+        elif isinstance(st, ast.If):
+            stores = {n.id for n in ast.walk(st) if isinstance(n, ast.Name) and isinstance(n.ctx, ast.Store)}
+            if var not in stores:
+                continue
+            t = expand_names(fn_node, st, st.test, depth=4, chains=chains, allow_calls=allow_calls)
+            a = decision_value(fn_node, st.body, var, chains, allow_calls, val)
+            b = decision_value(fn_node, st.orelse, var, chains, allow_calls, val)
+            if a is None or b is None:
+                return None
+            val = ast.IfExp(test=t, body=a, orelse=b)
+        elif any(isinstance(n, ast.Name) and n.id == var and isinstance(n.ctx, ast.Store) for n in ast.walk(st)):
+            return None
+    return val
+
+
+def _bool_atoms(e, out):
+    """leaves of the boolean structure of e, as canonical literal texts"""
+    if isinstance(e, ast.BoolOp):
+        for v in e.values:
+            _bool_atoms(v, out)
+    elif isinstance(e, ast.UnaryOp) and isinstance(e.op, ast.Not):
+        _bool_atoms(e.operand, out)
+    elif isinstance(e, ast.IfExp):
+        _bool_atoms(e.test, out)
+        _bool_atoms(e.body, out)
+        _bool_atoms(e.orelse, out)
+    elif isinstance(e, ast.Constant) and isinstance(e.value, bool):
+        pass
+    elif isinstance(e, ast.Compare) and len(e.ops) > 1:
+        left = e.left
+        for op, right in zip(e.ops, e.comparators):
+            out.add(literal(ast.Compare(left=left, ops=[op], comparators=[right]), True)[0])
+            left = right
+    else:
+        out.add(literal(e, True)[0])
+
+
+def _bool_eval(e, asg) -> bool:
+    if isinstance(e, ast.BoolOp):
+        if isinstance(e.op, ast.And):
+            return all(_bool_eval(v, asg) for v in e.values)
+        return any(_bool_eval(v, asg) for v in e.values)
+    if isinstance(e, ast.UnaryOp) and isinstance(e.op, ast.Not):
+        return not _bool_eval(e.operand, asg)
+    if isinstance(e, ast.IfExp):
+        return _bool_eval(e.body, asg) if _bool_eval(e.test, asg) else _bool_eval(e.orelse, asg)
+    if isinstance(e, ast.Constant) and isinstance(e.value, bool):
+        return e.value
+    if isinstance(e, ast.Compare) and len(e.ops) > 1:
+        left = e.left
+        for op, right in zip(e.ops, e.comparators):
+            t, p = literal(ast.Compare(left=left, ops=[op], comparators=[right]), True)
+            if asg[t] is not p:
+                return False
+            left = right
+        return True
+    t, p = literal(e, True)
+    return asg[t] is p
+
+
+def tt_equal(e1, e2, max_atoms=16):
+    """truth-table equivalence of two boolean-valued expressions over their (canonical, comprehension-alpha-renamed) leaves.
+    (True, None) | (False, witness assignment) | (None, reason)"""
+    import itertools
+    e1, e2 = comp_alpha(e1), comp_alpha(e2)
+    atoms: Set[str] = set()
+    _bool_atoms(e1, atoms)
+    _bool_atoms(e2, atoms)
+    names = sorted(atoms)
+    if len(names) > max_atoms:
+        return None, f"{len(names)} atoms"
+    for bits in itertools.product((False, True), repeat=len(names)):
+        asg = dict(zip(names, bits))
+        if _bool_eval(e1, asg) != _bool_eval(e2, asg):
+            return False, {k: v for k, v in asg.items()}
+    return True, None
